@@ -1,0 +1,12 @@
+//go:build verif
+
+// Contracts for govc (comment-only file; see /verif/DESIGN.md section 3).
+package presign
+
+// Output gate (C01): the online-signing session's result is produced only for a signature that the textbook
+// ECDSA equation accepts for exactly this session's public key and message.
+//@ func (*sign2).Finalize
+//@   requires r != nil && r.sign1 != nil && r.Helper != nil && r.PreSignature != nil && r.PreSignature.R != nil && r.PublicKey != nil
+//@   requires r.SigmaShares != nil && forall(k, party.ID, indom(r.SigmaShares, k) ==> r.SigmaShares[k] != nil)
+//@   assert_at[C01] ResultRound "return r.ResultRound(s)": ecdsa_valid(s.R, s.S, r.PublicKey, r.Message)
+//@   assert_at[C01] ResultRound "return r.ResultRound(s)": typeis(arg1, *ecdsa.Signature) && arg1.(*ecdsa.Signature) == s
